@@ -1,5 +1,6 @@
 """C11 — MultitaskMultivariateNormal: one joint distribution regardless of layout / constructor / index"""
 import itertools, math
+import math
 import numpy as np
 import torch, z3
 import gpytorch
@@ -491,6 +492,57 @@ def constructors(S, n, t):
             S.prove_eq(sub1, R1, name + "[1:, -1].cov")
 
 
+def constructors_batched(S, n, t, bshape, task_pos):
+    """from_batch_mvn with the task dimension anywhere among SEVERAL batch dimensions, from_repeated_mvn on a batched MVN:
+       element b of the result = independent tasks built from the b-th batch elements (mean, variance, log_prob layout)"""
+    bshape = tuple(bshape)
+    full = bshape[:task_pos] + (t,) + bshape[task_pos:]
+    means = S.randn(*full, n)
+    Msym = S.sym_tensor(means, "m")
+    Gs, Gc = S.factor("g", n, full)
+    covs = Gc @ Gc.transpose(-1, -2)
+    Cs = Gs @ np.swapaxes(Gs, -1, -2)
+    S.put(covs, Cs)
+    y = S.randn(*bshape, n, t)
+    Ys = S.sym_tensor(y, "y")
+    with S.mode():
+        bm = MultivariateNormal(means, covs)
+        d1 = S.must_not_raise("from_batch_mvn(task_dim=%d)" % task_pos, lambda: MultitaskMultivariateNormal.from_batch_mvn(bm, task_dim=task_pos))
+        d1n = MultitaskMultivariateNormal.from_batch_mvn(bm, task_dim=task_pos - len(full))
+        rep_src = MultivariateNormal(means.select(task_pos, 0), covs.select(task_pos, 0))
+        d3 = S.must_not_raise("from_repeated_mvn on a batched MVN", lambda: MultitaskMultivariateNormal.from_repeated_mvn(rep_src, num_tasks=t))
+        res = [(d.mean, d.variance, d.covariance_matrix, d._interleaved, d.log_prob(y)) for d in (d1, d1n, d3)]
+    from symten import sym_log, tri_solve_lower
+    for name, (mean_t, var_t, cov_t, inter, lp), rep in zip(("from_batch_mvn(task_dim>=0)", "from_batch_mvn(task_dim<0)", "from_repeated_mvn"), res, (False, False, True)):
+        S.check_concrete(tuple(mean_t.shape) == bshape + (n, t), name + " mean shape", str(tuple(mean_t.shape)))
+        for b in np.ndindex(*bshape):
+            def src(a):
+                return b[:task_pos] + ((0 if rep else a),) + b[task_pos:]
+            Mref = np.empty((n, t), dtype=object)
+            Vref = np.empty((n, t), dtype=object)
+            for i in range(n):
+                for a in range(t):
+                    Mref[i, a] = Msym[src(a) + (i,)]
+                    Vref[i, a] = Cs[src(a)][i, i]
+            S.prove_eq(mean_t[b], Mref, "%s.mean batch %s" % (name, list(b)))
+            S.prove_eq(var_t[b], Vref, "%s.variance batch %s" % (name, list(b)))
+            order = [(i, a) for i in range(n) for a in range(t)] if inter else [(i, a) for a in range(t) for i in range(n)]
+            Cref = np.empty((n * t, n * t), dtype=object)
+            for p_, (i, a) in enumerate(order):
+                for q_, (j, c) in enumerate(order):
+                    Cref[p_, q_] = Cs[src(a)][i, j] if a == c else Sym.const(0.0)
+            S.prove_eq(cov_t[b], Cref, "%s.covariance batch %s" % (name, list(b)))
+            # log_prob: independent tasks -> sum of the tasks' Gaussian log densities
+            tot = Sym.const(0.0)
+            for a in range(t):
+                G = Gs[src(a)]
+                r = np.array([Ys[b + (i, a)] - Msym[src(a) + (i,)] for i in range(n)], dtype=object).reshape(n, 1)
+                z = tri_solve_lower(G, r)
+                tot = tot + (np.sum(z * z) + sum((sym_log(G[i, i]) for i in range(n)), Sym.const(0.0)) * Sym.const(2.0)
+                             + Sym.const(n * math.log(2 * math.pi))) * Sym.const(-0.5)
+            S.prove_eq(lp[b], tot, "%s.log_prob batch %s" % (name, list(b)))
+
+
 def scenarios(tier, seed):
     out = []
     def add(fn, **p):
@@ -506,10 +558,15 @@ def scenarios(tier, seed):
             add("dist_semantics", n=n, t=t, batch=0, inter=inter)
             add("indexing", n=n, t=t, batch=0, inter=inter, alphabet="q" if tier == "quick" else "t")
     add("constructors", n=3, t=2)
+    add("constructors_batched", n=2, t=2, bshape=[2, 2], task_pos=0)
+    add("constructors_batched", n=2, t=2, bshape=[2], task_pos=1)
     for inter in (True, False):
         add("indexing", n=3, t=2, batch=2, inter=inter, alphabet="q")
     if tier == "thorough":
         add("constructors", n=2, t=3)
+        add("constructors_batched", n=2, t=3, bshape=[2, 2], task_pos=1)
+        add("constructors_batched", n=2, t=2, bshape=[2, 3], task_pos=0)
+        add("constructors_batched", n=2, t=2, bshape=[3, 2], task_pos=2)
         for inter in (True, False):
             add("dist_semantics", n=2, t=2, batch=2, inter=inter)
             add("indexing", n=2, t=2, batch=2, inter=inter, alphabet="q")
